@@ -18,8 +18,6 @@ VARIANTS = {  # name -> (repeat, release-cancel, cancel-on-press)
     "macro-repeat-cancel-on-press": (True, False, True),
     "macro-repeat-release-cancel-and-cancel-on-press": (True, True, True),
 }
-SIG_RING = "[more than 4 macros were started without an idle point in between]"
-SIG_BLOCK = "[after macro-release-cancel]"
 SIG_ORDER = "C08 O1:"
 MAX_REPLAYS = 12
 
@@ -89,7 +87,7 @@ def json_item_to_text(it, names):
     return pre + "(" + inner + ")"
 
 
-def make(macros, plain=("c",), red=None, b1=False):
+def make(macros, plain=("c",), red=None, b1=True):
     """macros: list of (physical key, variant, body items); plain: physical plain keys (output y/z/w)"""
     pouts = {"c": "y", "d": "z", "e": "w"}
     layer, pm, extra = {}, [], []
@@ -306,21 +304,25 @@ def cancel_sweep(kbd, params, mkey, other, variant, span):
     return out
 
 
-MODEL_MUTANTS = (("seq_delay_short", "plain_grp", "C08 D1"), ("seq_delay_is_step", "plain_grp", "C08 S1"),
-                 ("cancel_keeps_fk", "relc_grp", "C08 C2"))
+MODEL_MUTANTS = (("seq_delay_short", "plain_grp", "C08 D1", 1), ("seq_delay_is_step", "plain_grp", "C08 S1", 1),
+                 ("cancel_keeps_fk", "relc_grp", "C08 C2", 1),
+                 # the behaviours before the fix commits a8a26da / 345be8d of /repo
+                 # (Layout.tla also has Bug = "seq_ring_wraps"; showing E1 with it needs 5 macros with pairwise disjoint
+                 # keys, which is driven on the code by the bursts and by mutants/c08_revert_ring_full.diff instead)
+                 ("idle_ignores_prev", "relc_grp", "C08 B1", 1))
 
 
 def model_mutants(res, fam, wd):
     """meta-check (DESIGN 3.4): L1 with a seeded design error must be rejected by P_C08 in TLC"""
     byname = {f[0]: f for f in fam}
     out = []
-    for bug, name, rule in MODEL_MUTANTS:
+    for bug, name, rule, sb in MODEL_MUTANTS:
         _, macros, plain, seqb, qmax = byname[name]
         desc, params = make(macros, plain)
         inst = {"name": "c08mm_" + bug, "kbd": cfgdesc.render_kbd(desc), "keys": [cfgdesc.code(k) for k in desc["keys"]],
                 "qmax": qmax, "bug": bug, "monitor": {"module": "P_C08", "params": params}, "invariants": [],
                 "constraint": "SeqBound",
-                "extra_defs": "SeqBound == mon.err # \"\" \\/ (Len(K.L.seqs) <= 1 /\\ ~mon.over)"}
+                "extra_defs": "SeqBound == mon.err # \"\" \\/ (Len(K.L.seqs) <= %d /\\ mon.nreg <= 5)" % sb}
         r = mc.check_instance(inst, wd, workers=8, timeout=900, replay=False)
         hits = sum(1 for l in open(r["monerr_file"]) if rule in l)
         if hits == 0:
@@ -334,14 +336,14 @@ def run(tier, seed):
     rng = random.Random(seed)
     wd = workdir("c08")
     quick = tier == "quick"
-    witness_jobs, random_jobs, block_jobs = [], [], []
+    witness_jobs, random_jobs = [], []
 
     # (1) compile check; a mismatch is judged on the running code below
     mis = compile_check(res, tier, rng, wd)
     for c in mis[:40]:
         kbd = "(defsrc a c)\n(deflayer l0 %s y)\n" % c["text"].split(" ", 1)[1]
         pm = {"macros": [{"c": cfgdesc.code("a"), "rep": c["rep"], "rc": c["rc"], "pc": c["pc"], "body": c["body"]}],
-              "cap": 4, "b1": False}
+              "cap": 4, "b1": True}
         A, Cc = cfgdesc.code("a"), cfgdesc.code("c")
         scripts = [[["d", A], ["t", 40], ["u", A], ["t", 40]], [["d", A], ["t", 1], ["u", A], ["t", 60]],
                    [["d", A], ["t", 3], ["d", Cc], ["t", 2], ["u", Cc], ["u", A], ["t", 60]]]
@@ -359,10 +361,11 @@ def run(tier, seed):
         keys = [cfgdesc.code(k) for k in desc["keys"]]
         inst = {"name": "c08_" + name, "kbd": kbd, "keys": keys, "qmax": qmax,
                 "monitor": {"module": "P_C08", "params": params}, "invariants": [],
-                # at most `seqb` macros running together in the exhaustive instances (5-6 are driven on the code below);
-                # beyond the documented capacity the monitor only judges E1/B1
+                # at most `seqb` macros running together and at most 4 (ring instance: 5) started without an idle
+                # point in between in the exhaustive instances (bursts of 5-6 are also driven on the code below)
                 "constraint": "SeqBound",
-                "extra_defs": "SeqBound == mon.err # \"\" \\/ (Len(K.L.seqs) <= %d /\\ ~mon.over)" % seqb}
+                "extra_defs": "SeqBound == mon.err # \"\" \\/ (Len(K.L.seqs) <= %d /\\ mon.nreg <= %d)"
+                              % (seqb, 5 if seqb >= 4 else 4)}
         r = mc.check_instance(inst, wd, workers=8, timeout=1500 if quick else 3000)
         res.add_instance(r)
         log("[c08] %s: %s states, %s edges, drift %s, monerr %s, %.0fs" %
@@ -382,12 +385,6 @@ def run(tier, seed):
         for (k, variant, body) in macros:
             scripts += cancel_sweep(kbd, params, cfgdesc.code(k), other, variant, 14)
         random_jobs.append({"cfg": kbd, "params": params, "tag": "r:" + name, "scripts": scripts})
-        if any(VARIANTS[m[1]][1] for m in macros):
-            pb = dict(params)
-            pb["b1"] = True
-            block_jobs.append({"cfg": kbd, "params": pb, "tag": "b:" + name,
-                               "scripts": [s for (k, variant, body) in macros if VARIANTS[variant][1]
-                                           for s in cancel_sweep(kbd, pb, cfgdesc.code(k), other, variant, 8)]})
 
     # (3) more macros than the ring holds: 4 (fits), 5 and 6 concurrent macros with disjoint keys
     burst_jobs = [burst_job(4, 2, True), burst_job(5, 2, True), burst_job(6, 1, True), burst_job(5, 4, False)]
@@ -395,14 +392,14 @@ def run(tier, seed):
         burst_jobs += [burst_job(n, g, False) for n in (4, 5, 6) for g in (1, 3, 5)]
 
     suppressed = 0
-    for label, jobs in (("witness", witness_jobs), ("random", random_jobs), ("block", block_jobs), ("burst", burst_jobs)):
+    for label, jobs in (("witness", witness_jobs), ("random", random_jobs), ("burst", burst_jobs)):
         if not jobs:
             continue
         jobs = shard_local_index(jobs)
         errs, trace = record_and_validate(res, "P_C08", jobs, wd, "c08_" + label)
         for e in errs:
             j, s = script_of(jobs, e["job"], 0)
-            if len(res.violations) >= MAX_REPLAYS and not any(sg in e["err"] for sg in (SIG_RING, SIG_BLOCK, SIG_ORDER)):
+            if len(res.violations) >= MAX_REPLAYS and SIG_ORDER not in e["err"]:
                 suppressed += 1
                 continue
             flow.classify(res, PID, e["err"], e["err"] + " cfg=" + j["cfg"],
